@@ -306,4 +306,18 @@ fn context_unit(unit: u64, out: &mut WorkerOut) {
     Tpl { local: "| k<f64> v<f64> | x 5 | 6 y |".into(), top: "| k<f64> v<f64> | gx 5 | 6 gy |".into(), vars: vec![lv("x", "gx", "f64"), lv("y", "gy", "f64")], scalar_operands: true, set_ok: false, tag: "table-literal:mixed".into(), fn_ok: false },
   ];
   if unit == 0 { crate::ctx::judge_templates("C18", &mut s, &cell, 500, "x := 91; y := 92 (globals); gx := 1; gy := 2", out); }
+  // row selection with locally bound positions (the globals i, j hold other rows)
+  if unit == 1 {
+    let mut s = Session::new();
+    let t = Tbl { cols: vec!["k", "a"], rows: vec![vec![1, 10], vec![2, 20], vec![3, 30], vec![4, 40]] };
+    for d in [format!("gt := {}", literal(&t)), "i := 4".to_string(), "j := 4".to_string(), "gi := 2".to_string(), "gj := 3".to_string(), "gm := [true; false; true; false]".to_string(), "m := [false; false; false; true]".to_string()] { s.run(&d); }
+    let sel = vec![
+      Tpl { local: "gt[i]".into(), top: "gt[gi]".into(), vars: vec![lv("i", "gi", "f64")], scalar_operands: true, set_ok: false, tag: "select:scalar".into(), fn_ok: false },
+      Tpl { local: "gt[[i j]]".into(), top: "gt[[gi gj]]".into(), vars: vec![lv("i", "gi", "f64"), lv("j", "gj", "f64")], scalar_operands: true, set_ok: false, tag: "select:vector".into(), fn_ok: false },
+      Tpl { local: "gt[[j i j]]".into(), top: "gt[[gj gi gj]]".into(), vars: vec![lv("i", "gi", "f64"), lv("j", "gj", "f64")], scalar_operands: true, set_ok: false, tag: "select:vector-repeats".into(), fn_ok: false },
+      Tpl { local: "gt[m]".into(), top: "gt[gm]".into(), vars: vec![lv("m", "gm", "[bool]")], scalar_operands: false, set_ok: false, tag: "select:mask".into(), fn_ok: false },
+      Tpl { local: "gt[i + 1]".into(), top: "gt[gi + 1]".into(), vars: vec![lv("i", "gi", "f64")], scalar_operands: true, set_ok: false, tag: "select:formula".into(), fn_ok: false },
+    ];
+    crate::ctx::judge_templates("C18", &mut s, &sel, 700, &format!("gt := {}; i := 4; j := 4; m := [false; false; false; true] (globals); gi := 2; gj := 3; gm := [true; false; true; false]", literal(&t)), out);
+  }
 }
